@@ -91,17 +91,28 @@ static bool gen_c09(uint64_t seed, const std::string &tier, uint64_t i, Plan &p)
   auto ph = [&](int good) { return r.chance(0.25) ? rand_reply(r, good, tmo) : rep(good, r.chance(0.8) ? "single" : "multi"); };
   sv.set("greeting", ph(220)).set("helo", ph(250)).set("mail", ph(250)); Json rr = Json::arr(); for (int q = 0; q < nr; q++) rr.push(r.chance(0.4) ? rand_reply(r, 250, tmo) : rep(250)); sv.set("rcpt", rr);
   sv.set("data", r.chance(0.08) ? rep(354, "single", "reply_rst") : ph(354)).set("dot", r.chance(0.5) ? rand_reply(r, 250, tmo) : rep(250));
+  // a server that says 354 and then reads nothing more (a full disk, a stuck filter): with a message larger than the connection holds
+  // the client's writes stop and time out; a small message goes out and its acknowledgement never comes
+  if (r.chance(0.06)) { sv.set("data", rep(354, "single", "noread", tmo + 5000)); bool big = r.chance(0.6); p.knobs.set("msg", big ? gen_body(r.next(), (size_t)r.range(150000, 400000)) + "\n" : gen_body(r.next(), (size_t)r.range(10, 20000)) + "\n"); }
   p.knobs.set("server", sv);
   int net = (int)(i % 6);
-  std::string lab = "scripted server";
+  std::string lab = "scripted server"; bool lab_self = false;
   if (net == 4) {   // MX set with 1-3 hosts, some refusing or timing out
     p.knobs.erase("smtproutes"); p.knobs.set("timeoutconnect", 30);
     Json zone = Json::obj(); Json mx = Json::obj(); Json a = Json::obj(); Json hosts = Json::obj(); Json mxl = Json::arr();
     int n = (int)r.range(1, 3); bool any_accept = false;
     for (int q = 0; q < n; q++) { std::string h = "mx" + std::to_string(q) + ".r.example"; Json e = Json::arr(); e.push((q + 1) * 10); e.push(h); mxl.push(e); uint32_t ip = 0x0a020200 + (uint32_t)q; Json al = Json::arr(); al.push((long long)ip); a.set(h, al);
       std::string kind = q + 1 == n && r.chance(0.7) ? "accept" : r.pick(std::vector<std::string>{"refuse", "timeout", "accept"}); if (kind == "accept") any_accept = true; hosts.set(std::to_string(ip), Json::obj().set("kind", kind).set("delay", (long long)r.below(5))); }
+    // equal preferences (the order among them is random by design), and this host itself among the MX hosts: only better ones may be tried
+    if (n > 1 && r.chance(0.3)) for (auto &e : mxl.a) e.a[0] = Json((long long)10);
+    if (r.chance(0.3)) { std::string h = "self.r.example"; Json e = Json::arr(); e.push((long long)r.pick(std::vector<int>{5, 10, 15, 20, 25, 30, 35})); e.push(h); mxl.push(e); Json al = Json::arr(); al.push((long long)(r.chance(0.7) ? 0x0a000007 : 0x7f000001)); a.set(h, al); hosts.set(std::to_string(al.a[0].i()), Json::obj().set("kind", "accept")); lab_self = true; }
+    if (r.chance(0.2)) for (auto &hp : hosts.o) if (hp.second.gets("kind") == "accept" && hp.second.geti("delay", 0) == 0) hp.second.set("immediate", true);
+    // the address lookup of one MX host fails, for the moment or for good
+    if (r.chance(0.2)) { Json fl = Json::obj(); fl.set(mxl.a[r.below(mxl.a.size())].a[1].str(), r.chance(0.7) ? "soft" : "hard"); zone.set("fail", fl); lab_self = lab_self; }
     mx.set("r.example", mxl); zone.set("mx", mx).set("a", a); p.knobs.set("zone", zone).set("hosts", hosts);
-    lab = "mx set of " + std::to_string(n) + (any_accept ? "" : " (none accepts)");
+    lab = "mx set of " + std::to_string(n) + (any_accept ? "" : " (none accepts)") + (lab_self ? " +self" : "");
+    // the hosts were all down a few minutes ago (one or two earlier attempts timed out) and are up now: a listed host is skipped for a while, a success clears its record
+    if (any_accept && r.chance(0.25)) { p.knobs.set("earlier_runs", (long long)r.range(1, 3)).set("earlier_gap_s", (long long)r.pick(std::vector<int64_t>{10, 130, 200, 5000})).set("earlier_all_timeout", true); lab += " after an outage"; }
     // ... and the table of unreachable hosts is already full of OTHER hosts (or short, or of odd length) when these time out
     if (r.chance(0.4)) { p.knobs.set("tcpto_table", r.pick(std::vector<std::string>{"full", "full", "partial", "odd"})); lab += " tcpto " + p.knobs.gets("tcpto_table"); }
     // a destination that has been unreachable for a while: two or three earlier attempts, minutes apart, then the judged one
